@@ -38,6 +38,12 @@ def gen_roundtrip(rng):
         hist.append(r)
     r = L.gen_request(rng, g, op="setup", plain=True)
     r["inexact"] = inexact
+    if g.get("eups_named") and rng.random() < 0.5:
+        r["name"], r["ver"] = g["eups_named"], None      # product eups_…: EUPS_…_DIR, SETUP_EUPS_…, envSet(EUPS_FOO)
+    elif g.get("eups_named") and rng.random() < 0.3:
+        users = [d["name"] for d in g["decls"] if any(a.get("a") == "dep" and a["name"] == g["eups_named"] for _, a in L.flat_table(d["table"]))]
+        if users:
+            r["name"], r["ver"] = rng.choice(users), None
     if rng.random() < 0.2:
         r["types"] = ["build"]          # setup --type build p; unsetup --type build p
         for h in hist:
@@ -98,6 +104,8 @@ def run(ctx):
         ctx.hist("stat_" + k, v)
     if done >= 200 and (stats.get("roundtrips", 0) < done * 0.3):
         raise common.InfraError("degenerate distribution: %r of %d round trips" % (stats, done))
+    if done >= 300 and stats.get("class_eups_named", 0) < 5:
+        raise common.InfraError("too few unsetups of a product named eups_…: %r" % (stats,))
     if done >= 300 and stats.get("class_mid_reference", 0) < 10:
         raise common.InfraError("too few set-ups of tables with ${<NAME>_DIR} in the middle of a value: %r" % (stats,))
     if done >= 200 and stats.get("sh_compared", 0) < stats.get("ok", 0) * 0.5:
